@@ -211,13 +211,34 @@ def run(chk):
         chk.note(f'C10.R2 (relay loops by structure) not evaluated: {e.why[:200]}; who receives which relayed message is decided by C10.R4')
 
     # ---- R1: information flow of hands ------------------------------------------------------------------------------
+    # the structural reading of the hand flows is evaluated on a shadow check: its findings are reported only when the abstract sessions (R4),
+    # which decide who is sent which hand at which point semantically, report something as well - a disclosure guard written differently
+    # (`card_num == 0` for "first trick, first card") is not a violation
+    from ..report import Check as _Check
+    shadow = _Check(chk.pid, chk.tier, repo, chk.seed)
     try:
-        _hand_flows(chk, repo, sm, srv)
+        _hand_flows(shadow, repo, sm, srv)
     except AnalysisError as e:
         deferred = e
     else:
         deferred = None
+    n_before = len(chk.findings)
     _rest(chk, repo, sm, deferred)
+    sess_findings = len(chk.findings) > n_before
+    leaks = [f_ for f_ in shadow.findings if 'PlayerThread receives the deal' in f_.construct]
+    for f_ in shadow.findings:
+        if sess_findings or f_ in leaks:
+            chk.fail(f_.rule, f_.where, f_.qual, f_.construct, f_.reason, **f_.extra)
+    if shadow.findings and not sess_findings and len(leaks) < len(shadow.findings):
+        chk.note(f'C10.R1 (hand flows by structure) disagrees with the abstract sessions, which find every hand disclosure where the protocol puts it: '
+                 f'{[f_.construct for f_ in shadow.findings if f_ not in leaks][:2]} - the sessions (R4) decide')
+    elif not shadow.findings and deferred is None:
+        for k_, v_ in shadow.rules.items():
+            r_ = chk._rule(k_)
+            for kk in ('obligations', 'discharged', 'instances'):
+                r_[kk] += v_[kk]
+        chk.obligations += shadow.obligations
+        chk.discharged += shadow.discharged
 
 
 def _hand_flows(chk, repo, sm, srv):
